@@ -1,4 +1,5 @@
 import Dnp3.Model.OutstationTrace
+import Dnp3.Proofs.FreezeAtTime
 /-!
 # The outstation session model panics only by a counter underflow of the database, and its idle loop never spins
 
@@ -20,6 +21,7 @@ Every `Db.*` function is treated as opaque in the universally quantified proofs 
 -/
 namespace Dnp3.Proofs.NoPanicOutstation
 open Dnp3
+open Dnp3.Proofs.FreezeAtTime
 
 /-- closure of a database under every operation the session model applies to it -/
 inductive DbReach (db0 : Db) : Db → Prop
@@ -284,6 +286,9 @@ theorem le_handleFreeze (a : Acc) (seq : Nat) (k : FreezeKind) (hs : List ObjHdr
   exact le_foldl (fun (p : Acc × Nat) h => let (a', i) := handleFreezeHeader p.1 k h; (a', p.2 ||| i))
     (fun p : Acc × Nat => p.1) (fun p h => le_handleFreezeHeader p.1 k h) hs (a, 0)
 
+theorem le_handleFreezeAtTime (a : Acc) (seq : Nat) (hs : List ObjHdr) : Le a (handleFreezeAtTime a seq hs).1 :=
+  handleFreezeAtTime_inv (fun b => Le a b) (fun b h hb => hb.trans (le_handleFreezeHeader b .atTime h)) a seq hs (.refl _)
+
 theorem le_handleEnableDisable (a : Acc) (en : Bool) (seq : Nat) (hs : List ObjHdr) :
     Le a (handleEnableDisable a en seq hs).1 := by
   unfold handleEnableDisable
@@ -395,6 +400,7 @@ theorem nrspec_handleNonRead (a : Acc) (func seq fid : Nat) (hs : List ObjHdr) (
     | exact le_countOfOne ..
     | exact le_handleRestart ..
     | exact le_handleFreeze ..
+    | exact le_handleFreezeAtTime ..
     | exact le_handleEnableDisable ..
     | exact Le.of_st (.of_eq rfl rfl rfl rfl)
 
@@ -449,6 +455,7 @@ theorem processBroadcast_spec (a : Acc) (f : Frag) (mode : Nat) (ctrl : AppCtrl)
       | exact pbspec_some (le_emitCb _ _)
       | exact pbspec_some ((le_handleWrite ..).trans (le_emitCb _ _))
       | exact pbspec_some ((le_handleFreeze ..).trans (le_emitCb _ _))
+      | exact pbspec_some ((le_handleFreezeAtTime ..).trans (le_emitCb _ _))
       | exact pbspec_some ((le_handleEnableDisable ..).trans (le_emitCb _ _))
       | exact pbspec_some (Le.trans (b := ({ a.1 with lastBroadcast := some mode, lastRecorded := some a.1.now }, a.2))
           (.of_st (.of_eq rfl rfl rfl rfl)) (le_emitCb _ _))
